@@ -16,7 +16,7 @@ From Coq Require Import ZArith List Bool.
 Import ListNotations.
 From SP Require Import Base.Sat Design.Flat Design.Sem.
 From SP Require Import Encode.Compile Encode.CodeSem Encode.F1Sem Encode.CompileCorollaries
-     Encode.Iterate Encode.IterateProofs Encode.IterateCompile.
+     Encode.Iterate Encode.IterateProofs Encode.IterateCompile Encode.PropertyLemmas.
 
 Theorem C02_complete :
   forall (fb : flat) (b : backend) (ok : bool) (n' : Z) (final : cnf) (q : tseq),
@@ -24,7 +24,7 @@ Theorem C02_complete :
     compile fb = COk b -> full_cnf b = (ok, n', final) ->
     valid_b (code_sem fb) q = true ->
     exists t, sat t final = true /\ onehot fb t q.
-Proof. intros fb b ok n' final q HF1 HT Hc. exact (valid_has_model fb HF1 HT b Hc ok n' final q). Qed.
+Proof. exact c02_complete. Qed.
 Print Assumptions C02_complete.
 
 Theorem C02_once :
@@ -33,7 +33,7 @@ Theorem C02_once :
     compile fb = COk b -> full_cnf b = (ok, n', final) ->
     sat t1 final = true -> sat t2 final = true -> onehot fb t1 q -> onehot fb t2 q ->
     agree_upto n' t1 t2.
-Proof. intros fb b ok n' final q t1 t2 HF1 HT Hc. exact (one_model_per_sequence fb HF1 HT b Hc ok n' final q t1 t2). Qed.
+Proof. exact c02_once. Qed.
 Print Assumptions C02_once.
 
 Theorem C02_iterate_exhausts :
